@@ -95,6 +95,9 @@ class MidiFile(object):
                         if current_length - duration != 0:
                             b.current_beat -= 1.0 / current_length
                             b.current_beat += 1.0 / duration
+                    else:
+                        # nothing has been placed yet: the time that passed is a rest
+                        b.place_notes(NoteContainer(), duration)
                     if not b.place_notes(NoteContainer(), duration):
                         t + b
                         b = Bar(key, meter)
